@@ -431,8 +431,9 @@ def run_fp(cfg):
                 return ('differs',)
         return ('ok',)
 
-    old = symex.FRESH_SOLVER
+    old, old_to = symex.FRESH_SOLVER, symex.QUERY_TIMEOUT_MS
     symex.FRESH_SOLVER = True
+    symex.QUERY_TIMEOUT_MS = 240000      # bit-blasted double multipliers: generous per-query budget (unknown is never a verdict)
     try:
         for ctx, res in explore(body, max_paths=50):
             if res is None:
@@ -453,6 +454,7 @@ def run_fp(cfg):
                          'class': 'fp/%s' % res[0]})
     finally:
         symex.FRESH_SOLVER = old
+        symex.QUERY_TIMEOUT_MS = old_to
     return dict(obligations=ob, discharged=dis, violations=viol, twin=dis > 0,
                 samples=[{'config': cfg['name'], 'obligation': 'IEEE double: statistics accumulated from %d finite float64 vectors (|x| <= 1e6) and saved raw are accepted by _sanitize_stats and reloaded unchanged' % k}])
 
@@ -476,8 +478,31 @@ def replay(w):
     work = tempfile.mkdtemp(prefix='c17-', dir='/verif/.work' if os.path.isdir('/verif/.work') else None)
     try:
         rng = np.random.RandomState(3)
-        if w['kind'] in ('nostats', 'polarity'):
-            return {'reproduced': True, 'detail': w['what']}
+        if w['kind'] == 'nostats':
+            for name in ('a.npy', 'a.npz', 'a.bin'):
+                try:
+                    Standardize().save(os.path.join(work, name))
+                    return {'reproduced': True, 'detail': 'save(%s) without statistics did not raise' % name}
+                except ValueError:
+                    pass
+                except Exception as e:
+                    return {'reproduced': True, 'detail': 'save(%s) without statistics raised %s, not ValueError' % (name, type(e).__name__)}
+            return {'reproduced': False, 'detail': 'ValueError as documented'}
+        if w['kind'] == 'polarity':
+            kept = {}
+            for ow in (True, False):
+                p_ = os.path.join(work, 'p%s.npz' % ow)
+                np.savez(p_, other=np.zeros((2, 3)))
+                st = Standardize()
+                st.accumulate(rng.randn(5, 2), axis=-1)
+                try:
+                    st.save(p_, key='k', overwrite=ow)
+                    with np.load(p_) as z:
+                        kept[ow] = 'other' in z.files
+                except Exception as e:
+                    kept[ow] = 'raised %s' % type(e).__name__
+            bad = kept[True] == kept[False] or any(isinstance(v, str) for v in kept.values())
+            return {'reproduced': bad, 'detail': 'other archive entries kept with overwrite=True: %s, with overwrite=False: %s' % (kept[True], kept[False])}
         if w['kind'] == 'fp':
             st = Standardize()
             for vec in w['data']:
